@@ -63,7 +63,7 @@ LEAF = {"n": 1, "parent": [-1], "init": [None], "react": [{"VA": ["handle"]}], "
 
 class C16(Prop):
   id = "C16"
-  quick_examples = 300
+  quick_examples = 1000
   thorough_examples = 3000
   rule = ("Two generated families. (a) queued charts (HsmWithQueues at its shipped capacity): "
           "pre-fill 0/3/497..500 events then up to 7 operations post_fifo/post_lifo/next_rtc; the "
@@ -164,6 +164,7 @@ class C16(Prop):
     prefill, ops = case["prefill"], case["ops"]
     nontrivial, classes = False, ["locking"]
     prev = None
+    prev_tokens = None
     for upto in range(0, len(ops) + 1):
       where = "LockingDeque prefill=%d ops=%s" % (prefill, ops[:upto])
       try:
@@ -230,7 +231,13 @@ class C16(Prop):
               raise PropertyViolation("%s: %s gave %s, expected %s" % (where, op, res, exp), "C16:pop")
           classes.append("raw_pop")
         elif op in ("consume", "consume_right"):
-          if not prev:
+          if prev_tokens == 0:
+            # every wake-up token is in the hands of a consumer in flight: this consumer finds none
+            # and takes nothing, the pending items belong to the consumers that hold the tokens
+            if res != "empty" or content != prev:
+              raise PropertyViolation("%s: with no wake-up token left a consumer got %s (content %s -> %s)" % (
+                where, res, prev[:3], content[:3]), "C16:consume")
+          elif not prev:
             if res not in ("empty", "spare-token") or content:
               raise PropertyViolation("%s: consume on empty queue gave %s" % (where, res), "C16:consume")
           else:
@@ -252,6 +259,7 @@ class C16(Prop):
           if res != (len(prev), len(prev)) or content != prev:
             raise PropertyViolation("%s: len gave %s for %d items" % (where, res, len(prev)), "C16:len")
       prev = content
+      prev_tokens = tokens
     return nontrivial, classes
 
   # ---------------- (a) queued charts
